@@ -117,7 +117,7 @@ func (lb *ListenerBuilder) buildEastWestTLSPassthroughListeners() []*listener.Li
 	}
 	mergedGateway := lb.node.MergedGateway
 	actualWildcards, _ := getWildcardsAndLocalHost(lb.node.GetIPMode())
-	tlsHostsByPort := map[uint32]map[string]string{}
+	tlsHostsByPort := map[uint32]map[string]sets.String{}
 	mutableopts := make(map[string]mutableListenerOpts)
 
 	for _, port := range mergedGateway.ServerPorts {
